@@ -55,8 +55,19 @@ type c02Sec struct {
 	K2  string
 }
 
+// Not in the universe (observed on the unchanged tree, outside the statement's "same emptiness, same
+// line-break positions" premise as read here): an unsafe string that BEGINS or ENDS with a line feed,
+// printed with a width. The padding lands in a segment of its own, which is empty or not depending
+// on whether the text is shorter than the width:
+//
+//	Sprintf("%-12s|", "abc\n").Redact() = "‹×›\n‹×›|"  but  Sprintf("%-12s|", "abcdefghijklmno\n").Redact() = "‹×›\n|"
+//
+// Also observed: SafePrinter.Width()/Precision() return the numbers of an earlier directive (possibly
+// of an earlier call, through the pool) when they report ok=false, e.g. after Sprintf("%7.5d", 3),
+// Sprint(f) shows 7 and 5 to f.SafeFormat. These are format data (public), so c02SF{"state"} uses them
+// only when ok is true.
 var c02Secs = [2]*c02Sec{
-	{S: "s3cr3tA", S2: "s3cr3tB2", NL: "s3c\nr3tA", MK: "s3‹cr›3tA", I: 31337, I8: 77, U16: 4660,
+	{S: "s3cr3tA", S2: "s3cr3tB2", NL: "s3c\nr3tA", MK: "s3‹cr›3tA", I: 31337, I8: 77, U16: 43981,
 		U64: 3735928559, UP: 0x7a69, R: '‹', F: 1234.5678, F32: 2.5, C: complex(1.5, -2.5), B: true,
 		BS: []byte("s3cr3tA"), K1: "as3cr3t", K2: "bs3cr3t"},
 	{S: "zzTOPzz!long", S2: "zzTOPzz2", NL: "zzT\nOPzz!long", MK: "zz›TOP‹zz\xe2", I: -8675309, I8: -5, U16: 65535,
@@ -64,10 +75,15 @@ var c02Secs = [2]*c02Sec{
 		BS: []byte("zzTOPzz"), K1: "azzTOP!", K2: "bzzTOP"},
 }
 
-// c02Needles: distinctive renderings of the secrets of one instantiation. Only renderings of at
-// least 4 bytes (3 for text fragments) are kept so that they cannot occur in the public text of
-// the universe (format literals "a=", "|", "pub...", 9, 12, 3, 90210, type names, fmt's error tags).
-func c02Needles(s *c02Sec) []string {
+// c02Needles: renderings of the secrets of one instantiation.
+// strict: whole text fragments and decimal renderings of at least 5 bytes. None of them occurs in the
+// public text of the universe (format literals "a=", "|", "pub...", 9, 12, 3, 90210, type names,
+// fmt's error tags), so a hit in a redacted string is a leak whatever the other run gives.
+// broad: also 3-rune prefixes (what a precision of 3 leaves), hex, spaced hex, quoted, %c, %U, float
+// formats. Short hex or digit strings do occur in public text (hex of "pub...", widths), and once
+// the two redacted results are equal a hit can only be such a coincidence; the broad list is
+// therefore used to NAME what leaked when the two runs differ.
+func c02Needles(s *c02Sec) (strict, broad []string) {
 	seen := map[string]bool{}
 	var out []string
 	add := func(n string, min int) {
@@ -83,35 +99,43 @@ func c02Needles(s *c02Sec) []string {
 				continue
 			}
 			add(f, 3)
-			add(f[:3], 3)
-			add(fmt.Sprintf("%x", f[:2]), 4)
-			add(fmt.Sprintf("%X", f[:2]), 4)
-			add(fmt.Sprintf("% x", f[:2]), 4)
-			add(fmt.Sprintf("%# x", f[:2]), 4)
-			for _, c := range []byte(f[:3]) {
-				add(fmt.Sprintf("%d", c), 3)
-			}
+			add(f[:3], 3) // what a precision of 3 leaves
+			add(fmt.Sprintf("%x", f[:3]), 6)
+			add(fmt.Sprintf("%X", f[:3]), 6)
+			add(fmt.Sprintf("% x", f[:2]), 5)
+			add(fmt.Sprintf("% X", f[:2]), 5)
 		}
 	}
 	for _, x := range []string{s.S, s.S2, s.NL, s.MK, string(s.BS), s.K1, s.K2} {
 		text(x)
 	}
 	for _, x := range []interface{}{s.I, s.I8, s.U16, s.U64, s.UP, s.R} {
-		for _, f := range []string{"%d", "%x", "%X", "%o", "%b", "%c", "%q", "%U"} {
+		for _, f := range []string{"%d", "%x", "%X", "%c", "%q", "%U"} {
 			n := fmt.Sprintf(f, x)
-			if n == "�" || n == "'�'" {
+			if strings.Contains(n, "\ufffd") {
 				continue
 			}
-			add(strings.TrimPrefix(n, "-"), 4)
+			add(strings.TrimPrefix(n, "-"), 5)
 		}
 	}
 	for _, x := range []interface{}{s.F, s.F32, real(s.C), imag(s.C)} {
-		for _, f := range []string{"%v", "%e", "%f", "%.3f", "%.3e", "%.3g", "%x"} {
-			add(strings.TrimPrefix(fmt.Sprintf(f, x), "-"), 4)
+		for _, f := range []string{"%v", "%e", "%f", "%.3f", "%.3e", "%x"} {
+			add(strings.TrimPrefix(fmt.Sprintf(f, x), "-"), 5)
 		}
 	}
 	add(fmt.Sprintf("%t", s.B), 4)
-	return out
+	broad = out
+	// strict list: whole text fragments and decimal / default renderings of at least 5 bytes
+	out, seen = nil, map[string]bool{}
+	for _, x := range []string{s.S, s.S2, s.NL, s.MK, string(s.BS), s.K1, s.K2} {
+		for _, f := range strings.FieldsFunc(x, func(r rune) bool { return r == '\n' || r == '‹' || r == '›' || r == utf8.RuneError }) {
+			add(f, 5)
+		}
+	}
+	for _, x := range []interface{}{s.I, s.U16, s.U64, s.UP, s.F} {
+		add(strings.TrimPrefix(fmt.Sprintf("%v", x), "-"), 5)
+	}
+	return out, broad
 }
 
 // ---------------------------------------------------------------------------------------------
@@ -227,10 +251,15 @@ func (f c02SF) SafeFormat(p SafePrinter, verb rune) {
 		p.SafeUint(8)
 		p.SafeFloat(0.5)
 	case "state":
-		w, _ := p.Width()
-		pr, _ := p.Precision()
-		p.SafeInt(SafeInt(w))
-		p.SafeInt(SafeInt(pr))
+		// the directive's width, precision and flags are public (they come from the format); the
+		// numbers are meaningful only when reported present
+		if w, ok := p.Width(); ok {
+			p.SafeInt(SafeInt(w))
+		}
+		if pr, ok := p.Precision(); ok {
+			p.SafeRune('.')
+			p.SafeInt(SafeInt(pr))
+		}
 		if p.Flag('+') {
 			p.SafeRune('+')
 		}
@@ -400,6 +429,8 @@ func c02Base(s *c02Sec) []c02Val {
 	add(Unsafe(SafeString(s.S)), "Unsafe(SafeString("+q(s.S)+"))")
 	add(Unsafe(Safe(s.S)), "Unsafe(Safe("+q(s.S)+"))")
 	add(Unsafe(RedactableString("pub ‹"+s.S+"› x")), "Unsafe(RedactableString("+q("pub ‹"+s.S+"› x")+"))")
+	add(Unsafe(RedactableString(s.S+" ‹in› "+s.S2)), "Unsafe(RedactableString("+q(s.S+" ‹in› "+s.S2)+"))")
+	add(Unsafe(RedactableBytes(s.S+" ‹in› "+s.S2)), "Unsafe(RedactableBytes("+q(s.S+" ‹in› "+s.S2)+"))")
 	// pre-redactable values: only the enveloped part differs
 	add(RedactableString("rpub ‹"+s.S+"› rx"), "RedactableString("+q("rpub ‹"+s.S+"› rx")+")")
 	add(RedactableBytes("rpub ‹"+s.S+"› rx"), "RedactableBytes("+q("rpub ‹"+s.S+"› rx")+")")
@@ -410,12 +441,15 @@ func c02Base(s *c02Sec) []c02Val {
 	}
 	add(c02SF{"printf", "host", s.NL, s.I}, "c02SF{\"printf\", \"host\", "+q(s.NL)+", "+d(s.I)+"}")
 	add(c02SF{"direct", "host", s.MK, int(s.R)}, "c02SF{\"direct\", \"host\", "+q(s.MK)+", "+d(int(s.R))+"}")
+	// (a StringBuilder printed by value shows its buffer byte by byte: its length is shape, so the
+	// two contents have the same length)
 	var sb StringBuilder
 	sb.SafeString("sbpub ")
-	sb.UnsafeString(s.S)
-	sb.Printf(" %d", s.I)
-	add(sb, "StringBuilder{SafeString(\"sbpub \"); UnsafeString("+q(s.S)+"); Printf(\" %d\", "+d(s.I)+")}")
-	add(&sb, "&StringBuilder{SafeString(\"sbpub \"); UnsafeString("+q(s.S)+"); Printf(\" %d\", "+d(s.I)+")}")
+	sb.UnsafeString(string(s.BS))
+	sb.Printf(" %08d", s.I)
+	sbTxt := "StringBuilder{SafeString(\"sbpub \"); UnsafeString(" + q(string(s.BS)) + "); Printf(\" %08d\", " + d(s.I) + ")}"
+	add(sb, sbTxt)
+	add(&sb, "&"+sbTxt)
 
 	// public values: identical in both instantiations, no pointers inside
 	pub(Safe("pubS"), "Safe(\"pubS\")")
@@ -531,7 +565,8 @@ func c02SpecialFormats() []c02Fmt {
 		{"a %.", false, one},
 		{"%.*v|", false, func(v [2]c02Val, k int) []c02Val { return []c02Val{c02PubStr, v[k]} }},
 		{"%*v|", false, func(v [2]c02Val, k int) []c02Val { return []c02Val{c02PubStr, v[k]} }},
-		{"%9999999v|", false, one},
+		{"%99999999v|", false, one}, // width too large to parse
+		{"%2000v|", false, one},
 		{"100%% %v %%", false, one},
 		{"%v\n%v", false, two},
 		{"%v\n\n", false, one},
@@ -581,7 +616,9 @@ func c02Entries() []c02Entry {
 			var b StringBuilder
 			b.Printf(f, a...)
 			return string(b.RedactableString())
-		}, func(k int, fq, at string) string { return "StringBuilder{Printf(" + fq + sep(at) + ")}.RedactableString()" }},
+		}, func(k int, fq, at string) string {
+			return "StringBuilder{Printf(" + fq + sep(at) + ")}.RedactableString()"
+		}},
 		{"Sprintfn{Printf}", func(k int, f string, a []interface{}) string {
 			return string(Sprintfn(func(w SafePrinter) { w.Printf(f, a...) }))
 		}, func(k int, fq, at string) string { return "Sprintfn(func(w){w.Printf(" + fq + sep(at) + ")})" }},
@@ -672,7 +709,9 @@ func c02Ops() []c02Op {
 		{func(s *c02Sec) string { return fmt.Sprintf("Print(%q, %d)", s.S, s.I) }, func(w SafeWriter, s *c02Sec) { w.Print(s.S, s.I) }},
 		{func(s *c02Sec) string { return fmt.Sprintf("Print(Safe(\"p\"), %q)", s.S2) }, func(w SafeWriter, s *c02Sec) { w.Print(Safe("p"), s.S2) }},
 		{func(s *c02Sec) string { return fmt.Sprintf("Printf(\"%%05d|%%q\", %d, %q)", s.I, s.S) }, func(w SafeWriter, s *c02Sec) { w.Printf("%05d|%q", s.I, s.S) }},
-		{func(s *c02Sec) string { return fmt.Sprintf("Printf(\"%%v\", c02SF{\"printf\", \"host\", %q, %d})", s.S, s.I) },
+		{func(s *c02Sec) string {
+			return fmt.Sprintf("Printf(\"%%v\", c02SF{\"printf\", \"host\", %q, %d})", s.S, s.I)
+		},
 			func(w SafeWriter, s *c02Sec) { w.Printf("%v", c02SF{"printf", "host", s.S, s.I}) }},
 		{c("Print(Safe(c02SF{\"printf\", \"db1\", \"tok\", 5}))"), func(w SafeWriter, s *c02Sec) { w.Print(Safe(c02SF{"printf", "db1", "tok", 5})) }},
 		{func(s *c02Sec) string { return "io.WriteString(w, " + q(s.S) + ")" }, func(w SafeWriter, s *c02Sec) { _, _ = io.WriteString(w.(io.Writer), s.S) }},
@@ -686,20 +725,22 @@ func c02Ops() []c02Op {
 
 type c02Runner struct {
 	t          *testing.T
-	needles    [2][]string
+	needles    [2][]string // strict
+	broad      [2][]string
 	cases      int
 	nontrivial int
 	fails      int
 	maxFails   int
 	canaryRaw  string
 	canaryOff  bool
+	canaryBad  int // canary failures seen; only the first 3 are reported, the others only repaired
 }
 
 func c02NewRunner(t *testing.T, maxFails int) *c02Runner {
 	c02Setup()
 	r := &c02Runner{t: t, maxFails: maxFails}
-	r.needles[0] = c02Needles(c02Secs[0])
-	r.needles[1] = c02Needles(c02Secs[1])
+	r.needles[0], r.broad[0] = c02Needles(c02Secs[0])
+	r.needles[1], r.broad[1] = c02Needles(c02Secs[1])
 	// start from an empty printer pool so that the result does not depend on earlier tests
 	runtime.GC()
 	runtime.GC()
@@ -727,7 +768,19 @@ func (r *c02Runner) verdict(outA, outB string) (ok bool, why string) {
 		redB = string(RedactableString(outB).Redact())
 	}
 	if redA != redB {
-		return false, fmt.Sprintf("the two instantiations of the unsafe leaves give different results after Redact(): %q vs %q", redA, redB)
+		why = fmt.Sprintf("the two instantiations of the unsafe leaves give different results after Redact(): %q vs %q", redA, redB)
+		for k, red := range []string{redA, redB} {
+			other := redB
+			if k == 1 {
+				other = redA
+			}
+			for _, n := range r.broad[k] {
+				if strings.Contains(red, n) && !strings.Contains(other, n) {
+					return false, why + fmt.Sprintf("; the byte sequence %q taken from an unsafe value of run %c is present in its redacted string", n, 'A'+k)
+				}
+			}
+		}
+		return false, why
 	}
 	for k := 0; k < 2; k++ {
 		for _, n := range r.needles[k] {
@@ -773,8 +826,11 @@ func (r *c02Runner) canaryOK(history string) bool {
 	a, b := c02Canary(0), c02Canary(1)
 	ok, why := r.verdict(a, b)
 	if !ok {
-		r.fail("after "+history+": A: "+c02CanaryText(0)+"; B: "+c02CanaryText(1), fmt.Sprintf("A: %q; B: %q", a, b),
-			"a call made AFTER the one shown first is affected by it (state carried over in the pooled printer): "+why)
+		r.canaryBad++
+		if r.canaryBad <= 3 {
+			r.fail("after "+history+": A: "+c02CanaryText(0)+"; B: "+c02CanaryText(1), fmt.Sprintf("A: %q; B: %q", a, b),
+				"a call made AFTER the one shown first is affected by it (state carried over in the pooled printer): "+why)
+		}
 	}
 	return ok
 }
@@ -937,6 +993,9 @@ func (r *c02Runner) runErrorFn(entries []c02Entry, formats []c02Fmt) {
 }
 
 func (r *c02Runner) bounded(law, rule, bound string) {
+	if r.canaryBad > 3 {
+		r.t.Logf("C02: %d more calls left state behind in the pooled printer (same symptom as the first 3, not listed)", r.canaryBad-3)
+	}
 	m, _ := json.Marshal(map[string]interface{}{"property": "C02", "law": law, "cases": r.cases, "nontrivial": r.nontrivial,
 		"nontrivial_rule": rule, "bound": bound, "exhaustive": r.fails == 0})
 	fmt.Printf("BOUNDED: %s\n", m)
@@ -990,6 +1049,23 @@ func TestVerifReplayC02(t *testing.T) {
 	}
 	x, okx := pick("x", "a", "secret1", "s1")
 	y, oky := pick("y", "b", "secret2", "s2")
+	if xs, ok := x.(string); ok {
+		// the statement only speaks about pairs with the same emptiness and the same line-break positions
+		ys, _ := y.(string)
+		if (xs == "") != (ys == "") {
+			okx = false
+		}
+		if strings.Contains(xs+ys, "\n") {
+			if len(xs) != len(ys) {
+				okx = false
+			}
+			for j := 0; okx && j < len(xs); j++ {
+				if (xs[j] == '\n') != (ys[j] == '\n') {
+					okx = false
+				}
+			}
+		}
+	}
 	if okx && oky && reflect.TypeOf(x) == reflect.TypeOf(y) {
 		var hv [2][]c02Val
 		for k, h := range []interface{}{x, y} {
@@ -1040,6 +1116,9 @@ func TestVerifReplayC02(t *testing.T) {
 		return
 	}
 	r.runErrorFn(entries[:1], c02SimpleFormats([]string{"", "+"}, []string{""}, []string{""}, []string{"v", "s", "q", "x", "d", "w"}))
+	if r.canaryBad > 3 {
+		t.Logf("C02: %d more calls left state behind in the pooled printer (same symptom as the first 3, not listed)", r.canaryBad-3)
+	}
 	t.Logf("C02 replay: %d two-run cases, %d non-trivial, %d needles", r.cases, r.nontrivial, len(r.needles[0])+len(r.needles[1]))
 }
 
@@ -1050,8 +1129,8 @@ func TestVerifBoundedC02(t *testing.T) {
 	all := c02Values(true)
 	specials := c02SpecialFormats()
 
-	flags := []string{"", "+", "#", "-", "0", " "}
-	widths := []string{"", "12", "*"}
+	flags := []string{"", "+", "#", "-", "0", " ", "+-# 0"}
+	widths := []string{"", "1", "12", "*"}
 	precs := []string{"", ".3"}
 	if thorough {
 		flags = []string{"", "+", "#", "-", "0", " ", "+#", "-0", "#0", "+ ", "-#", "+-# 0"}
@@ -1095,13 +1174,32 @@ func TestVerifBoundedC02(t *testing.T) {
 		if thorough {
 			fs = append(fs, c02SimpleFormats([]string{""}, []string{"12", "*"}, []string{".3"}, c02Verbs)...)
 		}
-		r.runFormats(entries, fs, all)
+		var bound string
+		if thorough {
+			r.runFormats(entries, fs, all)
+			bound = fmt.Sprintf("%d entry points (NAMES) x %d formats x %d values", len(entries), len(fs), len(all[0]))
+		} else {
+			// base values and each under Unsafe() through every entry point; all derived values through Sprintf
+			var bu [2][]c02Val
+			for k := range base {
+				bu[k] = append(bu[k], base[k]...)
+				for _, b := range base[k] {
+					bu[k] = append(bu[k], c02Val{Unsafe(b.v), "Unsafe(" + b.txt + ")", false})
+				}
+			}
+			r.runFormats(entries, fs, bu)
+			if !r.stop() {
+				r.runFormats(entries[:1], fs, all)
+			}
+			bound = fmt.Sprintf("%d entry points (NAMES) x %d formats x %d values (base values and each under Unsafe()); Sprintf x the same formats x %d values (each base value also in a slice, a struct, a map, behind a pointer)",
+				len(entries), len(fs), len(bu[0]), len(all[0]))
+		}
 		names := make([]string, len(entries))
 		for j := range entries {
 			names[j] = entries[j].name
 		}
 		r.bounded("every entry point: two-run identity after Redact() and no leaked rendering; canary call after each case",
-			c02Rule, fmt.Sprintf("%d entry points (%s) x %d formats x %d values", len(entries), strings.Join(names, ", "), len(fs), len(all[0])))
+			c02Rule, strings.Replace(bound, "NAMES", strings.Join(names, ", "), 1))
 		total += r.cases
 		if r.fails > 0 {
 			return
